@@ -1,6 +1,8 @@
 SPECIFICATION MCSpec
 CONSTANTS
   Groups = {"g1"}
+  GroupOnFollower = FALSE
+  OnlyOpenEnded = FALSE
   CleanupById = TRUE
   Consumers = {"c1", "c2", "c3"}
   MaxEpoch = 3
@@ -8,6 +10,9 @@ CONSTANTS
   MaxOps = 7
   UsePlain = FALSE
   UseBurst = FALSE
+  UseFollower = TRUE
+  UseBounded = TRUE
+  C0 = "c1"
   UseBad = FALSE
 INVARIANTS C13_OneActive
 PROPERTIES StepsOK
